@@ -3,6 +3,7 @@
 package canetti
 
 // Contracts for the deductive checker in /verif (comment-only; compiled only under the verif tag).
+//@ loadalso pkg/proofs/sigma/compiler/fiatshamir/zkmodule
 
 // Randomness provenance (C07), round 1: the dealer contribution is dealt with THIS participant's reader (draw at the
 // entry state), rho is rhoLen bytes read in full from the same reader afterwards, and the opening u of the
@@ -16,3 +17,70 @@ package canetti
 //@   ensures err == nil ==> ownDraw(box(p.state.u), old(shk(p.prng)), shk(p.prng))
 //@   ensures p.prng == old(p.prng)
 //@   ghostset before "rho := make([]byte, p.rhoLen)": srho = shk(p.prng)
+
+// ---------------------------------------------------------------- acceptance gates (C03, C04)
+//@ pure func cOth(p *Participant, a Int) Int = seqat(p.ctx.OtherPartiesOrdered(), a, int)
+//@ pure func r2bOf(r2b V, id sharing.ID) V = res(r2b.Get(id), 0)
+//@ pure func r2uShare(r2u V, id sharing.ID) V = res(r2u.Get(id), 0).Share
+
+// A private round-2 message is valid exactly when it carries a share addressed to the recipient: nothing else about
+// the share (in particular not a length derived from the SENDER's rows) may make an honest message invalid.
+//@ func (*Round2P2P).Validate
+//@   property C03, C04
+//@   purefn
+//@   ensures result == nil <==> m != nil && m.Share != nil && m.Share.ID() == p.SharingID()
+//@   ensures forall x V :: !culprit(result, x)
+//@ func (*Round3Broadcast).Validate
+//@   property C03, C04
+//@   purefn
+//@   ensures result == nil ==> m != nil && m.Psi != nil
+//@   ensures forall x V :: !culprit(result, x)
+//@ func (*Participant).SharingID
+//@   property C03
+//@   purefn
+//@   ensures result == p.ctx.HolderID()
+
+// Round 3: the local response is produced only if, for EVERY other party, the round-2 opening matches the commitment
+// that party broadcast in round 1 (under the session's commitment key) and the private share received from it
+// verifies against the verification vector inside the opened message; the aggregated share and verification vector
+// combine the contributions of ALL parties in order. A failed check blames the sender.
+//@ func (*Participant).Round3
+//@   property C03, C04
+//@   ghostvar acc map[int]typeof(share)
+//@   ghostvar vacc map[int]V
+//@   ensures err == nil ==> forall a Int :: 0 <= a && a < seqlen(p.ctx.OtherPartiesOrdered()) ==> msgOK(p, r2b, cOth(p, a)) && msgOK(p, r2u, cOth(p, a))
+//@   ensures err == nil ==> forall a Int :: 0 <= a && a < seqlen(p.ctx.OtherPartiesOrdered()) ==> p.commitmentKey.Open(old(p.state.vs)[cOth(p, a)], r2bOf(r2b, cOth(p, a)).Message.Bytes(), r2bOf(r2b, cOth(p, a)).U) == nil
+//@   ensures err == nil ==> forall a Int :: 0 <= a && a < seqlen(p.ctx.OtherPartiesOrdered()) ==> p.sharingScheme.Verify(r2uShare(r2u, cOth(p, a)), r2bOf(r2b, cOth(p, a)).Message.X) == nil
+//@   ensures err == nil ==> acc[0] == res(p.state.dealerFunc.ShareOf(p.ctx.HolderID()), 0) && p.state.share == acc[seqlen(p.ctx.OtherPartiesOrdered())] && forall a Int :: 0 <= a && a < seqlen(p.ctx.OtherPartiesOrdered()) ==> acc[a+1] == acc[a].Op(r2uShare(r2u, cOth(p, a)))
+//@   ensures err == nil ==> vacc[0] == old(p.state.verificationVector) && p.state.verificationVector == vacc[seqlen(p.ctx.OtherPartiesOrdered())] && forall a Int :: 0 <= a && a < seqlen(p.ctx.OtherPartiesOrdered()) ==> vacc[a+1] == res(as(vacc[a], *feldman.VerificationVector).Op(r2bOf(r2b, cOth(p, a)).Message.X), 0)
+//@   loop range(p.ctx.OtherPartiesOrdered())
+//@     invariant forall a Int :: 0 <= a && a < seqlen(p.ctx.OtherPartiesOrdered()) ==> msgOK(p, r2b, cOth(p, a)) && msgOK(p, r2u, cOth(p, a))
+//@     invariant p.state.vs == old(p.state.vs) && p.commitmentKey == old(p.commitmentKey) && p.sharingScheme == old(p.sharingScheme) && p.state.dealerFunc == old(p.state.dealerFunc)
+//@     invariant forall a Int :: 0 <= a && a < $i ==> p.commitmentKey.Open(old(p.state.vs)[cOth(p, a)], r2bOf(r2b, cOth(p, a)).Message.Bytes(), r2bOf(r2b, cOth(p, a)).U) == nil
+//@     invariant forall a Int :: 0 <= a && a < $i ==> p.sharingScheme.Verify(r2uShare(r2u, cOth(p, a)), r2bOf(r2b, cOth(p, a)).Message.X) == nil
+//@     invariant acc[0] == res(p.state.dealerFunc.ShareOf(p.ctx.HolderID()), 0) && acc[$i] == share && forall a Int :: 0 <= a && a < $i ==> acc[a+1] == acc[a].Op(r2uShare(r2u, cOth(p, a)))
+//@     invariant vacc[0] == old(p.state.verificationVector) && vacc[$i] == p.state.verificationVector && forall a Int :: 0 <= a && a < $i ==> vacc[a+1] == res(as(vacc[a], *feldman.VerificationVector).Op(r2bOf(r2b, cOth(p, a)).Message.X), 0)
+//@   ghostset before "for id := range p.ctx.OtherPartiesOrdered() {": acc[0] = share
+//@   ghostset before "for id := range p.ctx.OtherPartiesOrdered() {": vacc[0] = p.state.verificationVector
+//@   ghostset after "share = share.Op(u.Share)": acc[$i+1] = share
+//@   ghostset after "share = share.Op(u.Share)": vacc[$i+1] = p.state.verificationVector
+
+// Round 4: a shard is output only if EVERY other party's round-3 proof (i) carries the commitment A that party
+// committed to in round 1 and (ii) verifies under that party's verifier context, for the statement made of ITS
+// verification vector; the shard is NewBaseShard(aggregated share, aggregated vector, MSP).
+// sigmaOK: the batch-Schnorr sigma protocol accepts (statement of party id's vector, the proof's commitment, the
+// challenge e, the proof's response), and e is what the proof carries
+//@ pure func sigmaOK(p *Participant, r3b V, id sharing.ID, e []byte) bool = p.schScheme.Verify(batch_schnorr.NewStatement(p.group.Generator(), slices.Collect(p.state.msg[id].X.Value().Iter())...), res(r3b.Get(id), 0).Psi.a, e, res(r3b.Get(id), 0).Psi.z) == nil && bytesEq(e, res(r3b.Get(id), 0).Psi.e)
+//@ func (*Participant).Round4
+//@   property C03, C04
+//@   opt trustpre=NewBaseShard
+//@   ghostvar chal map[int][]byte
+//@   ghostvar tpre V
+//@   ghostset before "if err := zkmodule.Verify(p.state.verifierCtxs[id], p.schScheme, schStatement, b.Psi); err != nil {": tpre = tsc(p.state.verifierCtxs[id].Transcript())
+//@   ghostset after "if err := zkmodule.Verify(p.state.verifierCtxs[id], p.schScheme, schStatement, b.Psi); err != nil {": chal[$i] = fsChallenge(tpre, schStatement, b.Psi.a, p.schScheme.GetChallengeBytesLength())
+//@   ensures err == nil ==> forall a Int :: 0 <= a && a < seqlen(p.ctx.OtherPartiesOrdered()) ==> res(r3b.Get(cOth(p, a)), 0).Psi.Commitment().A.Equal(p.state.msg[cOth(p, a)].A.A)
+//@   ensures err == nil ==> forall a Int :: 0 <= a && a < seqlen(p.ctx.OtherPartiesOrdered()) ==> sigmaOK(p, r3b, cOth(p, a), chal[a])
+//@   ensures err == nil ==> result == res(mpc.NewBaseShard(p.state.share, p.state.verificationVector, p.sharingScheme.MSP()), 0)
+//@   loop range(p.ctx.OtherPartiesOrdered())
+//@     invariant forall a Int :: 0 <= a && a < $i ==> res(r3b.Get(cOth(p, a)), 0).Psi.Commitment().A.Equal(p.state.msg[cOth(p, a)].A.A)
+//@     invariant forall a Int :: 0 <= a && a < $i ==> sigmaOK(p, r3b, cOth(p, a), chal[a])
